@@ -1,13 +1,50 @@
-import LhasaV.Model.Lzs
-import LhasaV.Spec.Lz77
+import LhasaV.Lemmas.LzRoundTrip
 /-!
 # C03 — LArc lzs / lz5 and the stored methods decode every valid stream exactly
-(placeholder: statements are proved in Lemmas/LzRoundTrip.lean and re-exported here)
+
+`expandLzs` / `expandLz5` (Spec/Lz77.lean) are the denotations of a command list over an abstract
+ring (absolute positions, overlap, never-written cells); `serialiseLzs` / `serialiseLz5` are the
+stream formats. `Wrap.reads` is the public read API (`lha_decoder_read`) driven by a schedule.
 -/
 namespace LhasaV.Props.C03
 open LhasaV LhasaV.Spec.Lz77
 
-/-- the abstract expansion of the empty command list is empty (both formats) -/
-theorem expand_nil : expandLzs [] = [] ∧ expandLz5 [] = [] := ⟨rfl, rfl⟩
+/-- -lzs-: for EVERY valid command list, declared length `n`, read schedule `ks` and callback
+chunking `c`, the bytes returned are the first `min (Σ ks) n` bytes of the denotation. -/
+theorem lzs_decode_serialise (cs : List RCmd) (hv : ∀ c ∈ cs, validLzs c = true) (c n b : Nat)
+    (ks : List Nat) :
+    (Wrap.reads (Dec.total Lzs.dec) ks
+        { inner := .ok (Lzs.init { data := (serialiseLzs cs).toArray, chunk := c }),
+          length := n, blockSize := b }).1.1 = (expandLzs cs).take (min ks.sum n) :=
+  LzRoundTrip.lzs_reads cs hv c n b ks
+
+/-- -lz5- (the decoder requires full answers from its callback: chunk = 0). -/
+theorem lz5_decode_serialise (cs : List RCmd) (hv : ∀ c ∈ cs, validLz5 c = true) (n b : Nat)
+    (ks : List Nat) :
+    (Wrap.reads (Dec.total Lz5.dec) ks
+        { inner := .ok (Lz5.init { data := (serialiseLz5 cs).toArray }),
+          length := n, blockSize := b }).1.1 = (expandLz5 cs).take (min ks.sum n) :=
+  LzRoundTrip.lz5_reads cs hv n b ks
+
+/-- stored methods (-lh0-, -lz4-, -pm0-): the compressed bytes unchanged up to the declared length,
+for every callback chunking. -/
+theorem null_identity (d : List UInt8) (c n b : Nat) (ks : List Nat) :
+    (Wrap.reads (Dec.total Null.dec) ks
+        { inner := .ok (Null.dec.init { data := d.toArray, chunk := c }),
+          length := n, blockSize := b }).1.1 = d.take (min ks.sum n) :=
+  LzRoundTrip.null_reads d c n b ks
+
+/-- `fill_initial` of lz5_decoder.c is the fixed LArc pattern, cell by cell. -/
+theorem lz5_fill_eq_closed_form (i : Nat) (hi : i < 4096) :
+    Lz5.fillInitial[i]? = some (lz5Init i) := LzRoundTrip.lz5_fill_eq_closed_form i hi
+
+/-- The ring buffer with modulo indexing refines the abstract ring (self-overlap and never-written
+cells included): the copy loop shared by all LZ decoders. -/
+theorem ring_copy_refines (N : Nat) (hN : 0 < N) (n p : Nat) (a : Array UInt8) (w : Nat)
+    (acc : List UInt8) (r : Ring) (hrel : LzRoundTrip.RingRel N a r) (hw : w < N) :
+    ∃ a', LhasaV.Ring.copyLoop N n p a w acc
+        = .ok (a', (copyRing N n p w r).2.2, (copyRing N n p w r).1.reverse ++ acc) ∧
+      LzRoundTrip.RingRel N a' (copyRing N n p w r).2.1 ∧ (copyRing N n p w r).2.2 < N :=
+  LzRoundTrip.copyLoop_spec N hN n p a w acc r hrel hw
 
 end LhasaV.Props.C03
